@@ -4,6 +4,7 @@
 //
 // Copyright (c) DUSK NETWORK. All rights reserved.
 
+use alloc::boxed::Box;
 use alloc::vec::Vec;
 
 use dusk_bytes::Serializable;
@@ -300,15 +301,53 @@ impl CompressedCircuit {
         }
     }
 
+    /// Inflates `input` into at most `max_size` bytes and requires the
+    /// deflate stream to span the whole input: bytes after the end of the
+    /// stream are trailing data and make the description malformed.
+    fn inflate_exact(input: &[u8], max_size: usize) -> Result<Vec<u8>, Error> {
+        use miniz_oxide::inflate::TINFLStatus;
+        use miniz_oxide::inflate::core::{
+            DecompressorOxide, decompress, inflate_flags,
+        };
+
+        let flags = inflate_flags::TINFL_FLAG_USING_NON_WRAPPING_OUTPUT_BUF;
+        let mut output = vec![0u8; input.len().saturating_mul(2).min(max_size)];
+        let mut decompressor = Box::<DecompressorOxide>::default();
+        let mut consumed = 0;
+        let mut produced = 0;
+
+        loop {
+            let (status, read, written) = decompress(
+                &mut decompressor,
+                input.get(consumed..).unwrap_or(&[]),
+                &mut output,
+                produced,
+                flags,
+            );
+            consumed += read;
+            produced += written;
+
+            match status {
+                TINFLStatus::Done if consumed == input.len() => {
+                    output.truncate(produced);
+                    return Ok(output);
+                }
+                TINFLStatus::HasMoreOutput if output.len() < max_size => {
+                    let grown =
+                        output.len().saturating_mul(2).max(64).min(max_size);
+                    output.resize(grown, 0);
+                }
+                _ => return Err(Error::InvalidCompressedCircuit),
+            }
+        }
+    }
+
     pub fn from_bytes(
         compressed: &[u8],
         max_constraints: usize,
     ) -> Result<Composer, Error> {
         let max_size = Self::packed_size_limit(max_constraints)?;
-        let compressed = miniz_oxide::inflate::decompress_to_vec_with_limit(
-            compressed, max_size,
-        )
-        .map_err(|_| Error::InvalidCompressedCircuit)?;
+        let compressed = Self::inflate_exact(compressed, max_size)?;
         let circuit = Self::unpack_bounded(&compressed, max_constraints)?;
 
         let scalar_map = scalar_map(circuit.hades_optimization);
